@@ -780,6 +780,19 @@ var famSkipSeq = Register(&Family{Name: "skipseq-C02", Spec: "Trace_ThriftSkip",
 		return "skipseq/" + impl
 	}})
 
+// the same sessions under C08: a decoder that has just REJECTED a value (unknown type tag, negative size, depth) is
+// used again on the same stream; what it accepts and how far it reads afterwards is judged by the same reference
+var famSkipSeqC08 = Register(&Family{Name: "skipseq-C08", Spec: "Trace_ThriftSkip", Cfg: "Trace_ThriftSkip.cfg",
+	Run: runSkipSeqCase, Env: []string{"VPROP=C02"},
+	Sig: func(raw json.RawMessage, line string) string {
+		why := ""
+		if i := strings.Index(line, " // "); i >= 0 {
+			why = line[i+4:]
+		}
+		impl, _, _ := strings.Cut(why, " ")
+		return "skipseq-after-rejection/" + impl
+	}})
+
 func skipSeqCases(c *Ctx, n int) []json.RawMessage {
 	var out []json.RawMessage
 	rng := rand.New(rand.NewSource(c.Seed*48271 + 202))
